@@ -7,14 +7,16 @@ import json, subprocess, sys, tempfile, os
 import xml.etree.ElementTree as ET
 
 def main():
-    n = "8"
+    n = None
     if "-n" in sys.argv:
         n = sys.argv[sys.argv.index("-n") + 1]
     base = json.load(open("/root/.vp/BASELINE.json"))
     want = set(base["stable_pass"])
     fd, path = tempfile.mkstemp(suffix=".xml"); os.close(fd)
     cmd = ["/venv/bin/python", "-m", "pytest", "-q", "-p", "no:cacheprovider", "--timeout=900",
-           "--continue-on-collection-errors", "-n", n, "--junitxml=" + path]
+           "--continue-on-collection-errors", "--junitxml=" + path]
+    if n:
+        cmd += ["-n", n]  # faster, but a few plot tests are order dependent; serial is the reference
     env = dict(os.environ); env.pop("PYAUTOARRAY_VERIF", None)
     subprocess.run(cmd, cwd="/repo", env=env, stdout=subprocess.DEVNULL, stderr=subprocess.DEVNULL)
     passed = set()
